@@ -63,6 +63,11 @@ type Spec struct {
 	// StartTLS, SSH key exchange, Noise handshake), then all clients of all instances are
 	// released together from one barrier - the first uses of the identity overlap.
 	Clients int `json:"clients,omitempty"`
+	// Hold: after the identity has been reported the process stays alive - server running,
+	// store open - until its standard input is closed, and only then exits (without closing
+	// the store, like every other run). The parent starts the next run(s) of the history in
+	// the meantime: an overlapping restart.
+	Hold bool `json:"hold,omitempty"`
 }
 
 // instT is one configured service instance that presents a persisted identity item.
@@ -355,6 +360,11 @@ func childMain(specJSON string) {
 	sort.Strings(ident.Tokens)
 	ident.Events = len(evs)
 	send(childMsg{Ev: "identity", Identity: ident})
+	if spec.Hold {
+		// stay up (server running, store open) until the parent closes our standard input;
+		// the parent dying closes it too
+		io.Copy(io.Discard, os.Stdin)
+	}
 	// like the real daemon, exit without closing the store
 	os.Exit(0)
 }
